@@ -578,3 +578,84 @@ def vint_vector_values(t, thorough=False):
         for v in shapes:
             out.append((v, pvs))
     return out
+
+
+# ------------------------------------------------------------------------------- input-kind layer (C02)
+# Reference-domain grids for the values that are handed to the driver as each python input kind a
+# serializer accepts (datetime / date / str / int / float / wrapper objects ...).
+_DATE_MIN, _DATE_MAX = days_of(1, 1, 1), days_of(9999, 12, 31)
+
+
+def kind_days(thorough=False):
+    """Day numbers python's date can hold: the `date` grid values inside 0001-01-01..9999-12-31, both ends
+    and their neighbours, the days around the epoch, the days on which 2^31 seconds before/after the epoch
+    fall, leap days, century non-leap years, the Gregorian switch, the int64-nanosecond days."""
+    ymd = [(1969, 12, 30), (1969, 12, 31), (1970, 1, 1), (1970, 1, 2), (1, 1, 1), (1, 1, 2), (9999, 12, 30), (9999, 12, 31),
+           (1901, 12, 13), (1901, 12, 14), (2038, 1, 19), (2038, 1, 20), (1900, 1, 1), (1900, 2, 28), (1900, 3, 1),
+           (2000, 2, 29), (1600, 2, 29), (1582, 10, 4), (1582, 10, 15), (1950, 3, 7), (1815, 6, 18), (1677, 9, 21),
+           (2262, 4, 11), (2015, 11, 2), (1968, 2, 29), (1972, 2, 29), (100, 3, 1), (999, 12, 31), (1000, 1, 1)]
+    if thorough:
+        for y in (2, 4, 99, 400, 1000, 1500, 1699, 1700, 1800, 1899, 1960, 1969, 1970, 1971, 1999, 2001, 2100, 2242, 2400,
+                  3000, 5000, 9998):
+            ymd += [(y, 1, 1), (y, 2, 28), (y, 6, 15), (y, 12, 31)]
+    vals = [d for d in scalar_values('date', thorough) if _DATE_MIN <= d <= _DATE_MAX]
+    return _dedup(vals + [days_of(*x) for x in ymd])
+
+
+def kind_times_of_day(thorough=False):
+    """(hour, minute, second, microsecond): midnight, the first/last microsecond, millisecond and second of
+    the day, the quarters, the times of day of +-2^31 s from the epoch."""
+    tods = [(0, 0, 0, 0), (0, 0, 0, 1), (0, 0, 0, 1000), (0, 0, 1, 0), (3, 14, 7, 0), (3, 14, 8, 0), (6, 0, 0, 0),
+            (12, 0, 0, 0), (12, 34, 56, 789000), (18, 0, 0, 0), (20, 45, 51, 0), (20, 45, 52, 0), (23, 59, 59, 0),
+            (23, 59, 59, 999000), (23, 59, 59, 999999)]
+    if thorough:
+        tods += [(0, 0, 0, 999), (0, 0, 0, 999999), (0, 1, 0, 0), (1, 0, 0, 0), (11, 59, 59, 999000), (12, 0, 0, 1000),
+                 (23, 0, 0, 0), (23, 59, 0, 0), (23, 59, 59, 1000), (23, 59, 59, 500000)]
+    return tods
+
+
+def tod_us(tod):
+    h, mi, s, us = tod
+    return ((h * 60 + mi) * 60 + s) * 10 ** 6 + us
+
+
+def kind_instants(thorough=False):
+    """Milliseconds since the epoch inside python's datetime range: the `timestamp` grid plus every
+    kind_days day at every whole-millisecond time of day."""
+    vals = list(_timestamps(thorough))
+    for d in kind_days(thorough):
+        for tod in kind_times_of_day(thorough):
+            us = tod_us(tod)
+            if us % 1000 == 0:
+                vals.append(d * 86400000 + us // 1000)
+    for s in (2 ** 31, -2 ** 31):
+        vals += [s * 1000 - 1, s * 1000, s * 1000 + 1]
+    vals += [-86400000 - 1, -86400000 + 1, 86400000 - 1, 86400000 + 1]
+    lo, hi = ms_of(1, 1, 1), ms_of(9999, 12, 31, 23, 59, 59, 999)
+    return _dedup([v for v in vals if lo <= v <= hi])
+
+
+def kind_wide_instants():
+    """Milliseconds beyond datetime's range (given as numbers only): int64 and float-mantissa edges."""
+    return [-2 ** 63, 2 ** 63 - 1, -2 ** 63 + 1, 2 ** 63 - 2, 2 ** 53, 2 ** 53 + 1, -2 ** 53, -2 ** 53 - 1, 2 ** 62, -2 ** 62,
+            ms_of(1, 1, 1) - 1, ms_of(9999, 12, 31, 23, 59, 59, 999) + 1]
+
+
+def kind_time_nanos(thorough=False):
+    """Nanoseconds since midnight: the `time` grid plus unit edges (us, ms, s, min, h) -1/+0/+1 ns."""
+    n = V.NANOS_PER_DAY
+    vals = list(scalar_values('time', thorough))
+    for unit in (10 ** 3, 10 ** 6, 10 ** 9, 60 * 10 ** 9, 3600 * 10 ** 9, n // 2):
+        vals += [unit - 1, unit, unit + 1]
+    vals += [((12 * 60 + 34) * 60 + 56) * 10 ** 9 + 789012345, n - 1000, n - 10 ** 6, n - 10 ** 9, 100, 120000000, 5 * 10 ** 8,
+             ((23 * 60 + 59) * 60 + 59) * 10 ** 9 + 999999000]
+    return _dedup([v for v in vals if 0 <= v < n])
+
+
+def kind_dyadic_floats():
+    """Non-integral floats whose shortest repr is their exact value (so the decimal they stand for has one
+    scale whichever way a float is turned into a decimal)."""
+    import fractions
+    cands = [1.5, -1.5, 0.5, -0.25, 0.75, 19432.125, 2.0 ** -10, -2.0 ** -20, 1234.0625, -0.125, 255.5, 65535.5,
+             -32768.5, 4294967295.5, 0.0009765625, 123456789.25]
+    return _dedup([f for f in cands if f != int(f) and 'e' not in repr(f) and fractions.Fraction(repr(f)) == fractions.Fraction(f)])
